@@ -74,10 +74,45 @@ func tables() {
 	out["primitive_width"] = widths
 	out["primitive_signed"] = signed
 	out["json_kind"] = jsonKinds
+	out["json_kind_shapes"] = jsonKindShapes()
 	out["max_import_recursion_depth"] = packaging.MaxImportRecursionDepth
 	enc := json.NewEncoder(os.Stdout)
 	enc.SetIndent("", " ")
 	enc.Encode(out)
+}
+
+// jsonKindShapes evaluates ndjsoncommon.GetJsonDataType on one representative of every non-primitive shape of type.
+func jsonKindShapes() map[string]string {
+	i32 := simple(dsl.PrimitiveInt32)
+	str := simple(dsl.PrimitiveString)
+	def := func(d dsl.TypeDefinition) dsl.Type { return &dsl.SimpleType{Name: "X", ResolvedDefinition: d} }
+	dim := func(e dsl.Type, d dsl.Dimensionality) dsl.Type {
+		return &dsl.GeneralizedType{Cases: dsl.TypeCases{&dsl.TypeCase{Type: e}}, Dimensionality: d}
+	}
+	two, three := uint64(2), uint64(3)
+	strAlias := def(&dsl.NamedType{DefinitionMeta: &dsl.DefinitionMeta{Name: "S"}, Type: str})
+	shapes := map[string]dsl.Type{
+		"enum":             def(&dsl.EnumDefinition{DefinitionMeta: &dsl.DefinitionMeta{Name: "E"}}),
+		"flags":            def(&dsl.EnumDefinition{DefinitionMeta: &dsl.DefinitionMeta{Name: "F"}, IsFlags: true}),
+		"record":           def(&dsl.RecordDefinition{DefinitionMeta: &dsl.DefinitionMeta{Name: "R"}}),
+		"generic_param":    def(&dsl.GenericTypeParameter{Name: "T"}),
+		"vector":           dim(i32, &dsl.Vector{}),
+		"fixed_vector":     dim(i32, &dsl.Vector{Length: &two}),
+		"fixed_array":      dim(i32, &dsl.Array{Dimensions: &dsl.ArrayDimensions{{Length: &two}, {Length: &three}}}),
+		"array":            dim(i32, &dsl.Array{Dimensions: &dsl.ArrayDimensions{{}, {}}}),
+		"dyn_array":        dim(i32, &dsl.Array{}),
+		"map_string":       dim(i32, &dsl.Map{KeyType: str}),
+		"map_string_alias": dim(i32, &dsl.Map{KeyType: strAlias}),
+		"map_other":        dim(str, &dsl.Map{KeyType: i32}),
+		"alias_of_string":  strAlias,
+		"alias_of_vector":  def(&dsl.NamedType{DefinitionMeta: &dsl.DefinitionMeta{Name: "V"}, Type: dim(i32, &dsl.Vector{})}),
+	}
+	res := map[string]string{}
+	for k, t := range shapes {
+		t := t
+		res[k] = recovered(func() string { return fmt.Sprintf("%d", ndjsoncommon.GetJsonDataType(t)) })
+	}
+	return res
 }
 
 // names reads identifiers from stdin (one per line) and prints, per line, the derived identifiers of each backend.
